@@ -520,6 +520,80 @@ fn main() {
                     ents.trim_end_matches(',')
                 );
             }
+            "recycle" => {
+                // recycle <rF> <rp> <name[,name..]> <newname> <file|dir> <sleep 0|1>
+                // Host side: make the host reuse the inode number of the file register rF denotes: drop the
+                // harness's own descriptors of it, unlink its names in directory rp (those still present),
+                // then create candidates in rp until one gets the old inode number; that one is renamed to
+                // <newname>, the others are removed.  The server is not involved.
+                let (rf, rp) = (us(1), us(2));
+                let kind_dir = w[5] == "dir";
+                let may_sleep = w[6] == "1";
+                let mut found = false;
+                let mut tries = 0usize;
+                let mut oldino = 0u64;
+                if let (Some(ffd), Some(pfd)) = (h.rfd.get(rf).copied().flatten(), h.rfd.get(rp).copied().flatten()) {
+                    let mut st: libc::stat64 = unsafe { std::mem::zeroed() };
+                    unsafe { libc::fstat64(ffd, &mut st) };
+                    oldino = st.st_ino;
+                    let olddev = st.st_dev;
+                    let mine: Vec<RawFd> = h.own.iter().copied().filter(|fd| *fd > 2).filter(|fd| {
+                        let mut s2: libc::stat64 = unsafe { std::mem::zeroed() };
+                        unsafe { libc::fstat64(*fd, &mut s2) == 0 && s2.st_ino == oldino && s2.st_dev == olddev }
+                    }).collect();
+                    for fd in mine {
+                        unsafe { libc::close(fd) };
+                        h.own.remove(&fd);
+                        for r in h.rfd.iter_mut() {
+                            if *r == Some(fd) {
+                                *r = None;
+                            }
+                        }
+                    }
+                    for nm in w[3].split(',') {
+                        let c = cs(nm);
+                        unsafe { libc::unlinkat(pfd, c.as_ptr(), if kind_dir { libc::AT_REMOVEDIR } else { 0 }) };
+                    }
+                    let newc = cs(&w[4]);
+                    let mut made: Vec<CString> = vec![];
+                    'outer: for round in 0..2 {
+                        if round == 1 {
+                            if !may_sleep {
+                                break;
+                            }
+                            std::thread::sleep(std::time::Duration::from_millis(5600));
+                        }
+                        for _ in 0..1500 {
+                            let c = cs(&format!("{}.cand{}", w[4], tries));
+                            tries += 1;
+                            let ok = if kind_dir {
+                                unsafe { libc::mkdirat(pfd, c.as_ptr(), 0o755) == 0 }
+                            } else {
+                                let fd = unsafe { libc::openat(pfd, c.as_ptr(), libc::O_CREAT | libc::O_WRONLY | libc::O_CLOEXEC, 0o644) };
+                                if fd >= 0 {
+                                    unsafe { libc::close(fd) };
+                                }
+                                fd >= 0
+                            };
+                            if !ok {
+                                break 'outer;
+                            }
+                            let mut s3: libc::stat64 = unsafe { std::mem::zeroed() };
+                            unsafe { libc::fstatat64(pfd, c.as_ptr(), &mut s3, libc::AT_SYMLINK_NOFOLLOW) };
+                            if s3.st_ino == oldino {
+                                unsafe { libc::renameat(pfd, c.as_ptr(), pfd, newc.as_ptr()) };
+                                found = true;
+                                break 'outer;
+                            }
+                            made.push(c);
+                        }
+                    }
+                    for c in made {
+                        unsafe { libc::unlinkat(pfd, c.as_ptr(), if kind_dir { libc::AT_REMOVEDIR } else { 0 }) };
+                    }
+                }
+                body = format!("\"res\":0,\"found\":{},\"oldino\":{},\"tries\":{}", found, oldino, tries);
+            }
             "destroy" => {
                 h.fs.destroy();
                 h.init();
